@@ -3,7 +3,7 @@
 // repl.EvalStringWithOption with opts.MaxDepth and opts.MaxDuration set.
 //
 //	input  <family>;<n>;<maxdepth, 0 = default>;<deadline in ms, 0 = none>[;<need>]
-//	obs    exit=<ok|killed|fatal:<kind>>;res=<ok|err|deadline|depth|mem|go|parse|->;wall=<ms>;rss=<KiB>;retried=<0|1>
+//	obs    exit=<ok|killed|fatal:<kind>>;res=<ok|err|deadline|depth|mem|go|parse|->;wall=<ms>;rss=<KiB>;cpu=<ms>;retried=<0|1>
 //
 // res: ok = no error; deadline = an error mentioning the context deadline; depth = the recovered
 // "max depth" panic; mem = the recovered "would exceed memory" panic; go = any other recovered Go
@@ -26,6 +26,7 @@ import (
 	"strconv"
 	"strings"
 	"sync"
+	"syscall"
 	"time"
 
 	"fortio.org/log"
@@ -53,6 +54,9 @@ const (
 // boundedProgram builds the program of one family.  n is the family's size parameter.
 func boundedProgram(fam string, n int64) string {
 	rep := func(s string) string { return strings.Repeat(s, int(n)) }
+	if p, ok := boundedExtProgram(fam, n); ok { // library functions, builtins, macros: bounded_ext.go
+		return p
+	}
 	switch fam {
 	// --- non-terminating loops
 	case "loop-empty":
@@ -192,6 +196,17 @@ func peakRSSKB() int64 {
 	return -1
 }
 
+// processCPU: user + system time of this process so far.  On a busy machine the wall-clock time of a run says how
+// long it WAITED as well; the CPU time says how long it computed.  The driver takes the smaller of the two for
+// every family that computes (not for `sleep`, which waits by design).
+func processCPU() time.Duration {
+	var ru syscall.Rusage
+	if err := syscall.Getrusage(syscall.RUSAGE_SELF, &ru); err != nil {
+		return -1
+	}
+	return time.Duration(ru.Utime.Nano() + ru.Stime.Nano())
+}
+
 func classifyErrs(errs []string) string {
 	res := "ok"
 	for _, e := range errs {
@@ -223,26 +238,39 @@ func boundedChild(args []string) int {
 	t, _ := strconv.Atoi(args[3])
 	log.SetLogLevelQuiet(log.Critical)
 	_ = extensions.Init(nil)
-	prog := boundedProgram(args[0], n)
+	// ctx-<family>: the deadline comes with the CALLER's context (a bot's per-request deadline, ^C in the REPL) and no
+	// MaxDuration is configured; the evaluation has to honour that context just the same
+	fam, viaCtx := strings.CutPrefix(args[0], "ctx-")
+	prog := boundedProgram(fam, n)
 	opts := repl.EvalStringOptions()
 	opts.MaxDepth = d
 	opts.MaxDuration = time.Duration(t) * time.Millisecond
+	ctx := context.Background()
+	if viaCtx && t > 0 {
+		opts.MaxDuration = 0
+		var cancel context.CancelFunc
+		ctx, cancel = context.WithTimeout(ctx, time.Duration(t)*time.Millisecond)
+		defer cancel()
+	}
+	cpu0 := processCPU()
 	start := time.Now()
-	_, errs, formatted := repl.EvalStringWithOption(context.Background(), opts, prog)
+	_, errs, formatted := repl.EvalStringWithOption(ctx, opts, prog)
 	wall := time.Since(start)
+	cpu := processCPU() - cpu0
 	res := classifyErrs(errs)
 	if res == "err" && formatted == prog && len(errs) > 0 && !strings.Contains(errs[0], "<err:") && strings.Contains(strings.Join(errs, " "), "parse") {
 		res = "parse"
 	}
-	fmt.Printf("res=%s;wall=%d;rss=%d\n", res, wall.Milliseconds(), peakRSSKB())
+	fmt.Printf("res=%s;wall=%d;rss=%d;cpu=%d\n", res, wall.Milliseconds(), peakRSSKB(), cpu.Milliseconds())
 	return 0
 }
 
 // families that finish in milliseconds when the code is right: a run that has to be killed there is a hang, and
 // waiting longer (or repeating many of them) only delays the report
 func boundedQuickFamily(fam string) bool {
+	fam = strings.TrimPrefix(fam, "ctx-")
 	return strings.HasPrefix(fam, "degen-") || strings.HasPrefix(fam, "wrap-") || strings.HasPrefix(fam, "huge-") ||
-		strings.HasPrefix(fam, "loop-") || fam == "sleep"
+		strings.HasPrefix(fam, "loop-") || fam == "sleep" || boundedExtQuick(fam)
 }
 
 func boundedKillAfterFor(fam string) time.Duration {
@@ -288,12 +316,19 @@ func runBoundedChild(fam string, n int64, d, t int) (string, bool) {
 	}
 	retry := false
 	if t > 0 {
+		w, c := 0, -1
 		for _, f := range strings.Split(line, ";") {
 			if strings.HasPrefix(f, "wall=") {
-				w, _ := strconv.Atoi(f[5:])
-				retry = w-t > boundedRetryOverMs
+				w, _ = strconv.Atoi(f[5:])
+			}
+			if strings.HasPrefix(f, "cpu=") {
+				c, _ = strconv.Atoi(f[4:])
 			}
 		}
+		if c >= 0 && c < w && strings.TrimPrefix(fam, "ctx-") != "sleep" {
+			w = c
+		}
+		retry = w-t > boundedRetryOverMs
 	}
 	return "exit=ok;" + line, retry
 }
@@ -470,6 +505,11 @@ func boundedGen(tier string, r *rng, emit func(string)) {
 		// waiting
 		add("sleep", 10, pickD(), 100)
 		add("sleep", 10, 0, deadlines[i%len(deadlines)])
+		// the same with the deadline carried by the caller's context and no MaxDuration
+		add("ctx-sleep", 10, 0, deadlines[i%len(deadlines)])
+		add("ctx-loop-empty", 0, pickD(), deadlines[(i+1)%len(deadlines)])
+		add("ctx-loop-incr", 0, 0, deadlines[(i+2)%len(deadlines)])
+		boundedExtGen(r, thorough, add) // library functions, builtins, macros: bounded_ext.go
 	}
 	// run: up to boundedWorkers children at a time
 	type job struct {
